@@ -21,3 +21,8 @@ add('C16', 'model_checking',
     'Symbolic model checking of the real Btdmp code including the real std::queue/std::deque template bodies: for every queue fill 0..16 (exhaustive case split) with symbolic words, period, phase, enable word and 64-bit k, Send/Flush/Tick are compared by SMT with the FIFO specification (frame = two oldest words in order, zeros when missing, flags exact, empty interrupt exactly when a pop empties the queue) and Skip is proved equal to Tick;Skip(k-1) for all 1<=k<=horizon (plus Skip(0)=id, horizon never reaches the emptying frame, ASSERTs unreachable); induction over single steps extends this to all interleavings.',
     'Assumes the invariant 0<period, timer<period (re-proved after every operation; the period has no reachable writer). Skip lemma: frame count per skip case-split (exhaustive inside the horizon, proved), empty-queue skips bounded to 3 frames; division by the symbolic period is rewritten via the Euclidean division theorem after z3 proves its premise (thorough tier re-proves small fills with symbolic division in cvc5 bv-as-int). Queue built by real Sends from a fresh deque (libstdc++ node-boundary paths trusted). Callbacks are events.',
     'symbolic execution of LLVM IR (incl. libstdc++ deque) + SMT: FIFO specification and skip lemmas per queue fill', 'DESIGN.md section 2 C16')
+
+add('C05', 'other',
+    'Only the C-binding clause is decided: the real Teakra_Disasm_Do (LLVM IR of src/disassembler_c.cpp) is executed symbolically for every buffer size 0..N+2 against an arbitrary text (symbolic length <= N, symbolic bytes) returned by a stub of Disassembler::Do; SMT proves: returns the length, writes nothing outside dst[0..dstlen), dst holds the text truncated to dstlen-1 characters followed by NUL, NULL dst is untouched. The other clauses of C05 are not claimed.',
+    'NOT decided: disassembler/assembler token round trip, injectivity of printed text, Do == join(tokens), firmware assembly (std::string / stringstream / unordered_map<variant> code is outside what llsym can encode; enumerating 65536 concrete renderings would not be a solver verdict). N = 24 quick / 112 thorough (longest rendered text is 104 characters). std::string accessors are modelled on the {pointer,length} representation.',
+    'symbolic execution of LLVM IR + SMT over symbolic text and all buffer sizes (bounded)', 'DESIGN.md section 2 C05, section 3')
